@@ -1,2 +1,50 @@
-Theorem C09_placeholder : True. Proof. exact I. Qed.
-Print Assumptions C09_placeholder.
+(* C09 — load-file text round-trips through the loader and the assembler.
+   LoadPrint.loadprint is the canonical load-file layout under a style number
+   from which every layout decision is drawn (letter case per character,
+   blanks / tabs, CR-LF or LF, comment / blank / ;name lines between lines,
+   a missing final newline, fields printed signed or unsigned);
+   Load.parse_load_file is the literal model of load.go (run against gmars on
+   every run), Compile.compile_warrior the literal model of the assembler. *)
+From GM Require Import Base Text Token Compile Load Sim Meaning Render LoadPrint AsmSpec C06Proof C10Proof C16Proof C09Proof.
+Open Scope N_scope.
+
+(* the property at full strength: both readers return the warrior, under every style *)
+Definition C09_full_statement : Prop :=
+  forall s cfg code start,
+    0 < c_size cfg -> c_size cfg <= 2 ^ 63 ->
+    Forall (fun i => i_a i < c_size cfg /\ i_b i < c_size cfg) code ->
+    (c_mode cfg = 0 -> Forall (fun i => legal88 i = true) code) ->
+    (0 <= start < Z.of_nat (length code))%Z -> (start < 2 ^ 31)%Z ->
+    let t := loadprint s (c_mode cfg =? 0) (c_size cfg) code start in
+    parse_load_file cfg t = LOk code start /\
+    exists meta, compile_warrior cfg t = COk code start meta.
+
+(* proved: the load-file reader half, for every style, core size up to 2^63, both dialects, every
+   instruction form, every entry point.  Missing: the assembler half (compile_warrior on the same
+   text), which is decided on every run by the correspondence only (kinds 10 / 32 of the harness:
+   gmars' CompileWarrior and ParseLoadFile on the rendered text against the warrior). *)
+Theorem C09_round_trip_partial :
+  forall s cfg code start,
+    0 < c_size cfg -> c_size cfg <= 2 ^ 63 ->
+    Forall (fun i => i_a i < c_size cfg /\ i_b i < c_size cfg) code ->
+    (c_mode cfg = 0 -> Forall (fun i => legal88 i = true) code) ->
+    (0 <= start < Z.of_nat (length code))%Z -> (start < 2 ^ 31)%Z ->
+    parse_load_file cfg (loadprint s (c_mode cfg =? 0) (c_size cfg) code start) = LOk code start.
+Proof. exact loader_round_trip. Qed.
+Print Assumptions C09_round_trip_partial.
+
+(* what the reader accepts (C10) prints and reads back to itself: print-then-read is the identity on
+   the image of the reader, so reading is idempotent through the canonical text *)
+Theorem C09_reader_fixpoint :
+  forall s cfg txt code start,
+    3 <= c_size cfg -> c_size cfg <= 2 ^ 63 ->
+    parse_load_file cfg txt = LOk code start -> (start < Z.of_nat (length code))%Z -> (start < 2 ^ 31)%Z ->
+    parse_load_file cfg (loadprint s (c_mode cfg =? 0) (c_size cfg) code start) = LOk code start.
+Proof.
+  intros s cfg txt code start Hm Hm' E Hlt H31.
+  destruct (load_accepts_wf cfg txt code start Hm E) as [Hwf [Hs H88]].
+  apply loader_round_trip; try assumption.
+  - apply N.lt_le_trans with 3; [reflexivity|exact Hm].
+  - split; [apply Hs|exact Hlt].
+Qed.
+Print Assumptions C09_reader_fixpoint.
